@@ -318,10 +318,10 @@ func checkC06(c *Ctx) {
 				c.Eval(fmt.Sprintf("share|fragment-%d|%d|%v", i, k, rec["shared"]), true)
 			}
 		}
-		for _, imports := range []bool{false, true} {
-			for _, rec := range c06SharePairs(fmt.Sprintf("fragment-%d", i), build, imports, r, shares) {
+		for _, mode := range []string{"plain", "imports", "extras"} {
+			for _, rec := range c06SharePairs(fmt.Sprintf("fragment-%d", i), build, mode, r, shares) {
 				out.Add(rec)
-				c.Eval(fmt.Sprintf("share-pair|fragment-%d|%v|%v|%v>%v|%v", i, imports, rec["node"], rec["from"], rec["to"], rec["shared"]), true)
+				c.Eval(fmt.Sprintf("share-pair|fragment-%d|%v|%v|%v>%v|%v", i, mode, rec["node"], rec["from"], rec["to"], rec["shared"]), true)
 			}
 		}
 		items[i] = traceItem{Key: fmt.Sprintf("template-fragment-%d", i), Trace: out.Bytes(), Events: out.Len(), Replay: obj{"kind": "c06", "mini": i}}
@@ -365,10 +365,10 @@ func checkC06(c *Ctx) {
 		return
 	}
 	qn := map[bool]int{true: 150, false: 1500}[c.Quick()]
-	for _, imports := range []bool{true} { // a tree with package paths can only be restored with import management
-		for _, rec := range c06SharePairs("qualified", qbuild, imports, rand.New(rand.NewSource(c.Seed+7)), qn) {
+	for _, mode := range []string{"imports"} { // a tree with package paths can only be restored with import management
+		for _, rec := range c06SharePairs("qualified", qbuild, mode, rand.New(rand.NewSource(c.Seed+7)), qn) {
 			whole.Add(rec)
-			c.Eval(fmt.Sprintf("share-pair|qualified|%v|%v|%v>%v|%v|%v", imports, rec["node"], rec["from"], rec["to"], rec["shared"], rec["qualified"]), true)
+			c.Eval(fmt.Sprintf("share-pair|qualified|%v|%v|%v>%v|%v|%v", mode, rec["node"], rec["from"], rec["to"], rec["shared"], rec["qualified"]), true)
 		}
 	}
 	items[n] = traceItem{Key: "corpus-files", Trace: whole.Bytes(), Events: whole.Len(), Replay: obj{"kind": "c06", "mini": -1}}
@@ -508,13 +508,20 @@ func f(b str.Builder) (fmt.Stringer, error) {
 // c06SharePairs puts one node at a second position that holds a node of the same concrete type
 // (outside its own subtree) -- or a clone of it -- and restores the file, with the plain restorer
 // or with import management.
-func c06SharePairs(key string, build func() *dst.File, imports bool, r *rand.Rand, n int) []obj {
+func c06SharePairs(key string, build func() *dst.File, mode string, r *rand.Rand, n int) []obj {
+	imports := mode == "imports"
 	var recs []obj
 	restore := func(f *dst.File) (string, error) {
 		var err error
 		msg := guard(func() {
 			if imports {
 				_, err = decorator.NewRestorerWithImports("example.com/p", guess.New()).RestoreFile(f)
+			} else if mode == "extras" {
+				// objects and scopes are restored too: a declaration is then reached through the tree and
+				// through Object.Decl, which is no excuse for a node that occurs twice in the tree
+				xr := decorator.NewRestorer()
+				xr.Extras = true
+				_, err = xr.RestoreFile(f)
 			} else {
 				_, _, err = decorator.RestoreFile(f)
 			}
@@ -589,7 +596,7 @@ func c06SharePairs(key string, build func() *dst.File, imports bool, r *rand.Ran
 				outcome = "error-" + err.Error()
 			}
 			id, _ := sn.(*dst.Ident)
-			recs = append(recs, obj{"ev": "share", "shared": !useClone, "outcome": outcome, "fragment": key, "imports": imports,
+			recs = append(recs, obj{"ev": "share", "shared": !useClone, "outcome": outcome, "fragment": key, "imports": imports, "mode": mode,
 				"node": fmt.Sprintf("%T", sn), "qualified": id != nil && id.Path != "",
 				"from": fmt.Sprintf("%s.%s", src.holder.Type().Name(), src.holder.Type().Field(src.fi).Name),
 				"to":   fmt.Sprintf("%s.%s", tgt.holder.Type().Name(), tgt.holder.Type().Field(tgt.fi).Name)})
